@@ -32,7 +32,8 @@ ASSUMPTIONS = [
 ]
 
 
-def make_graph_server(graph: dict[int, list[int]], silent: list[list[int]], nrc_mode: str, log: list[tuple[int, bytes]], reset_answer: str = "positive") -> Any:
+def make_graph_server(graph: dict[int, list[int]], silent: list[list[int]], nrc_mode: str, log: list[tuple[int, bytes]], reset_answer: str = "positive",
+                      tp_unsupported: frozenset[int] = frozenset()) -> Any:
     from gallia.services.uds.core import service
     from gallia.services.uds.core.constants import UDSErrorCodes, UDSIsoServices
     from gallia.services.uds.server import UDSServer
@@ -74,6 +75,9 @@ def make_graph_server(graph: dict[int, list[int]], silent: list[list[int]], nrc_
                 self.state.reset()
                 return None if (reset_answer == "silent" or pdu[1] & 0x80) else service.ECUResetResponse(pdu[1] & 0x7F)
             if sid == 0x3E and len(pdu) == 2:
+                if cur in tp_unsupported:
+                    # TesterPresent is not available in this session: a negative response is never suppressed
+                    return service.NegativeResponse(0x3E, UDSErrorCodes.serviceNotSupportedInActiveSession)
                 return None if pdu[1] & 0x80 else service.TesterPresentResponse()
             if pdu == b"\x22\xf1\x86":
                 return service.ReadDataByIdentifierResponse(0xF186, bytes([cur]))
@@ -155,7 +159,11 @@ def graph_case(draw) -> dict[str, Any]:
             "nrc_mode": draw(st.sampled_from(["plain", "plain", "inactive", "cnc"])), "depth": depth,
             "skip": sorted(skip), "thorough": thorough, "skip_text": skip_text,
             # the database already holds the session transitions an earlier, deeper scan of this ECU has found
-            "earlier_scan": draw(st.integers(0, 2)) == 0}
+            "earlier_scan": draw(st.integers(0, 2)) == 0,
+            # requests take time on the wire, so the cyclic tester-present worker (every 0.5 s) fires during the scan - also in
+            # sessions that do not offer TesterPresent and answer it with a negative response
+            "latency": draw(st.sampled_from([None, None, 0.0201, 0.0501])),
+            "tp_unsupported": draw(st.lists(st.sampled_from(nodes), unique=True, max_size=3)) if draw(st.booleans()) else []}
 
 
 @st.composite
@@ -217,7 +225,8 @@ def run_case(case: dict[str, Any]) -> dict[str, Any]:
     if case["kind"] == "graph":
         edges = {int(k): set(v) for k, v in case["graph"].items()}
         silent = {(a, b) for a, b in case["silent"]}
-        server = make_graph_server(case["graph"], case["silent"], case["nrc_mode"], log, (case.get("reset") or [0, "positive"])[1])
+        server = make_graph_server(case["graph"], case["silent"], case["nrc_mode"], log, (case.get("reset") or [0, "positive"])[1],
+                                   frozenset(case.get("tp_unsupported") or []))
     else:
         server = vecu.make_server(case["seed"], case["params"], [])
         server.randomize()
@@ -242,7 +251,7 @@ def run_case(case: dict[str, Any]) -> dict[str, Any]:
                         stored[b] = list(walk)
                         nxt.append(walk + [b])
             frontier = nxt
-    r = run_scanner(SessionsScanner, cfg, server, budget=min(budget, 600000), db_stored=stored)
+    r = run_scanner(SessionsScanner, cfg, server, budget=min(budget, 600000) * (3 if case.get("latency") else 1), db_stored=stored, latency=case.get("latency"))
     r["edges"] = edges
     r["silent"] = silent
     return r
